@@ -198,6 +198,7 @@ type c04Mode struct {
 	short     bool // the transport hands the client one byte per Read
 	behind    bool // the burst arrives right behind the CONNACK, before Connect has returned
 	replaceAt int
+	wfail     bool // one of the client's answers cannot be written: the link breaks at that Write (fault budget 1)
 }
 
 func runC04(c *Ctx) {
@@ -209,8 +210,8 @@ func runC04(c *Ctx) {
 	}
 	c.Bound("alphabet", fmt.Sprint(alpha))
 	c.Bound("max_sequence_length", maxL)
-	c.Bound("modes", "handler from start | no handler | handler installed before symbol 2 | burst (all packets in one segment, handler from start) | the same with one byte per Read | the same with the burst arriving right behind the CONNACK (session messages of a reconnect); plus all sequences of length<=2 with preemption bound 1 and a handler that yields")
-	modes := []c04Mode{{name: "h", handler: 0}, {name: "noh", handler: -1}, {name: "mid", handler: 2}, {name: "burst", handler: 0, burst: true}, {name: "burst-short-reads", handler: 0, burst: true, short: true}, {name: "burst-behind-connack", handler: 0, burst: true, behind: true}}
+	c.Bound("modes", "handler from start | no handler | handler installed before symbol 2 | burst (all packets in one segment, handler from start) | the same with one byte per Read | the same with the burst arriving right behind the CONNACK (session messages of a reconnect) | handler from start and the link breaking at the Write of one of the client's answers (the sequence ends there; what the arrival of the packet demands besides that answer is still required); plus all sequences of length<=2 with preemption bound 1 and a handler that yields")
+	modes := []c04Mode{{name: "h", handler: 0}, {name: "noh", handler: -1}, {name: "mid", handler: 2}, {name: "burst", handler: 0, burst: true}, {name: "burst-short-reads", handler: 0, burst: true, short: true}, {name: "burst-behind-connack", handler: 0, burst: true, behind: true}, {name: "answer-write-fails", handler: 0, wfail: true}}
 	var lastTL []string
 	var lastSeq string
 	for _, m := range modes {
@@ -236,16 +237,33 @@ func runC04(c *Ctx) {
 				var tl []string
 				var seqStr string
 				var net *env.Net
+				fbound := 0
+				if m.wfail {
+					fbound = 1
+				}
 				sc := &vrt.Scenario{
 					Name:  fmt.Sprintf("C04/%s/L%d/f%d", m.name, L, f),
-					Bound: vrt.Budget{P: p},
+					Bound: vrt.Budget{P: p, F: fbound},
 					Body: func() {
 						tl = nil
+						failed := false
 						net = env.NewNet()
 						s := env.NewScript(net)
 						s.AutoConnAck = !m.behind
 						if m.short {
 							s.Conn.ReadMax = 1
+						}
+						if m.wfail {
+							s.TransientFail = func(p *env.Packet) bool {
+								if p.Type == env.CONNECT || failed || vrt.Choose(vrt.KFault, 2, "this answer cannot be written") == 0 {
+									return false
+								}
+								failed = true
+								tl = append(tl, "W:"+p.String()) // attempted; it is the hand-over that is judged
+								vrt.Event(unsafe.Pointer(&tl), vrt.HashString("failed "+p.String()))
+								s.Conn.Break("link broke at this write")
+								return true
+							}
 						}
 						var behindBurst []byte
 						s.OnPacket = func(_ *env.Script, p *env.Packet) {
@@ -336,6 +354,9 @@ func runC04(c *Ctx) {
 							}
 							s.Send(pkt)
 							vrt.Settle()
+							if failed {
+								break
+							}
 						}
 						if m.behind {
 							behindBurst = burst
@@ -352,7 +373,7 @@ func runC04(c *Ctx) {
 						if msg := c04Match(groups, tl); msg != "" {
 							vrt.Failf("c04/"+c04Rule(msg), "sequence [%s] mode %s: %s\n timeline: %v", seqStr, m.name, msg, tl)
 						}
-						if err := cli.Err(); err != nil {
+						if err := cli.Err(); err != nil && !failed {
 							vrt.Failf("c04/connection-ended", "sequence [%s]: connection ended: %v", seqStr, err)
 						}
 						if len(s.Bad) > 0 {
